@@ -471,11 +471,16 @@ func c12DoExit(t *testing.T, root string, idx int, tp *c12Template, b c12Build, 
 // c12Window classifies where in Finish's install sequence a run stopped, from its own executed log.
 func c12Window(r c12RunResult, nArtifacts int, refDeletes int) string {
 	ren, del := 0, 0
+	interleaved := false
 	for _, o := range r.log {
 		if o.Result != "done" {
 			continue
 		}
 		switch o.Kind {
+		case "CreateTemp":
+			if ren > 0 && !strings.Contains(o.Args[1], "compound-") {
+				interleaved = true // an artifact's temp file is created after an install rename: not the rename loop of Finish
+			}
 		case "Rename":
 			if strings.HasSuffix(o.Args[1], ".zoekt") || (strings.HasSuffix(o.Args[1], ".meta") && !strings.Contains(o.Args[1], "compound-")) {
 				ren++
@@ -489,6 +494,8 @@ func c12Window(r c12RunResult, nArtifacts int, refDeletes int) string {
 		}
 	}
 	switch {
+	case interleaved:
+		return "install-interleaved-with-writes"
 	case ren == 0:
 		return "before-first-rename"
 	case ren < nArtifacts:
@@ -675,6 +682,19 @@ func TestVerifC12(t *testing.T) {
 			vfCase(coq, key, nontrivial, class, map[string]any{"scenario": string(scJSON), "run": kind, "k": k, "ops": rr.kind, "view": rr.obs.rows, "err": fmt.Sprint(rr.err)})
 		}
 		emit("ref", L, ref, false)
+		// the undisturbed run must leave nothing of the old index behind (full build) / exactly old shards under new sidecars (delta)
+		for _, row := range ref.obs.rows {
+			var slot, scode, mcode int
+			fmt.Sscanf(strings.NewReplacer("%N", "", "(", "", ")", "", ",", " ").Replace(row), "%d %d %d", &slot, &scode, &mcode)
+			if slot == 0 {
+				continue
+			}
+			stale := (!sc.New.Delta && (scode != 2 || mcode != 0)) || (sc.New.Delta && !((scode == 1 && mcode == 2) || (scode == 2 && mcode == 0)))
+			if stale {
+				vfOracleFail("complete-run-leaves-stale-files", "after an undisturbed successful build an old shard or old sidecar is still in effect: row "+row,
+					map[string]any{"scenario": sc, "view_rows(slot,shard,sidecar)": ref.obs.rows, "old_view": oldObs.rows})
+			}
+		}
 		newDigest := ref.obs.digest
 		replay := func(kind string, k int, rr c12RunResult) map[string]any {
 			return map[string]any{"scenario": sc, "run": kind, "op_index": k, "executed_ops": rr.kind, "view_rows(slot,shard,sidecar)": rr.obs.rows,
